@@ -244,6 +244,30 @@ pub fn exact_large_p_strategy(k: u32, allow_neg: bool) -> BoxedStrategy<RootCase
         .boxed()
 }
 
+/// machine-word sized inputs a few units below / above an exact power: x = R^k * 10^(k*far) -+ d with R of 1..6 digits,
+/// far chosen so that x has 12..40 digits (fits u64 / u128 / just not), small p: a root taken in floating point or in a
+/// word-sized fast path is one too high exactly here
+pub fn word_sized_strategy(k: u32, allow_neg: bool) -> BoxedStrategy<RootCase> {
+    (1u64..=999_999, 0u32..12, 1u8..=3, any::<bool>(), 0..3u8, -30i64..=30, 0..7u8, any::<bool>())
+        .prop_map(move |(r, far, d, below, pkind, s, mode, neg)| {
+            let rd = r.to_string().len() as u64;
+            let mut n = BigUint::from(r).pow(k);
+            // stretch to 12..40 digits
+            let have = n.to_string().len() as u32;
+            let far = far.max((12u32.saturating_sub(have) + k - 1) / k).min((40 - have.min(40)) / k);
+            n = n * BigUint::from(10u8).pow(k * far);
+            let n = if below { n - BigUint::from(d) } else { n + BigUint::from(d) };
+            let p = match pkind {
+                0 => rd,
+                1 => rd + far as u64,
+                _ => (rd + far as u64).saturating_sub(1).max(1),
+            };
+            let digits = n.to_string();
+            RootCase { d: D::new(if allow_neg && neg { format!("-{}", digits) } else { digits }, k as i64 * s), p, mode }
+        })
+        .boxed()
+}
+
 pub fn small_grid(i: u64, limit: u64, allow_neg: bool) -> Option<RootCase> {
     // n in 0..limit, scale -3..3, p 1..6, 7 modes, sign
     let mut k = i;
@@ -281,6 +305,7 @@ pub fn run(ctx: &Ctx) {
     ctx.generated("long-inputs", "sqrt", n / 2, "40..max digits with p in 1..20: more than 2(p+5) digits", move || long_input_strategy(max_len, false), check_sqrt);
     ctx.generated("constructed-roots", "sqrt", n, "x = R^2 (+-1 in a far digit) where R = p digits ++ {nothing, 5, 50..0x, 49..9x, 0..0x, 9..9x}", || constructed_strategy(2, 150, false), check_sqrt);
     ctx.generated("exact-roots-large-p", "sqrt", n / 2, "x = R^2 with R of 1..60 digits without trailing zeros (also +-1 in a far digit), p = digits(R) + 0..130 / 100 / 150 / 160, trailing zeros and scales of every residue", || exact_large_p_strategy(2, false), check_sqrt);
+    ctx.generated("word-sized-near-powers", "sqrt", n / 2, "x = R^2 * 10^(2j) -+ {1,2,3} with R of 1..6 digits and x of 12..40 digits (u64 / u128 sized), p = digits(R) or the root's full length (-1)", || word_sized_strategy(2, false), check_sqrt);
     let _ = BigInt::from(0);
     let _ = Mode::Up;
 }
